@@ -15,7 +15,7 @@ VO_MODEL = ["gen/ParseTables.vo", "parse/Lex.vo", "parse/Prim.vo", "parse/Ymd.vo
 E_LEX, E_PARSE, E_RES = 0, 1, 2
 
 EXN_NAMES = {1: "IndexError", 2: "ValueError", 3: "OverflowError", 4: "AssertionError", 5: "TypeError",
-             6: "UnboundLocalError", 7: "OutOfFuel"}
+             6: "UnboundLocalError", 7: "OutOfFuel", 8: "ValueError"}
 
 # TZ strings / tzinfo objects a tzinfos mapping or callable may return (wf_opts: valid ones only)
 TZSTRS = ["EST5EDT", "UTC+3", "CET-1CEST,M3.5.0,M10.5.0/3", "BRST3"]
@@ -222,7 +222,10 @@ def zone_proj(tzinfo):
     return (9, 0, type(tzinfo).__name__)
 
 
-def run_impl(o, s, timeout=10.0, text=None):
+_NOTEXT = object()
+
+
+def run_impl(o, s, timeout=10.0, text=_NOTEXT):
     """Run the real parser; returns the canonical outcome.  `text` overrides the object handed
     to parse() (bytes / stream variants)."""
     from dateutil import parser as P
@@ -238,7 +241,7 @@ def run_impl(o, s, timeout=10.0, text=None):
         kw["fuzzy"] = True
     if o["fwt"]:
         kw["fuzzy_with_tokens"] = True
-    arg = s if text is None else text
+    arg = s if text is _NOTEXT else text
     use_module = (o["via"] == "module" and not o["info_dayfirst"] and not o["info_yearfirst"]
                   and o["cur_year"] is None)
     warned = 0
@@ -361,7 +364,7 @@ def gen_digits(r, n=None):
         c = r.random()
         if c < 0.93:
             n = r.choice(DIGLENS)
-        elif c < 0.985:
+        elif c < 0.997:
             n = r.randint(300, 420)
         else:
             n = r.choice([4299, 4300, 4301, 4310])
@@ -528,6 +531,76 @@ def gen_opts(r, allow_bad=False):
                                  (9999, 12, 31, 23, 59, 59, 999999), (1, 1, 1, 0, 0, 0, 0), (2004, 2, 29, 1, 2, 3, 4),
                                  (2023, 5, 31, 0, 0, 0, 0), (9999, 12, 27, 0, 0, 0, 0)])
     if r.random() < 0.15:
-        o["cur_year"] = r.choice([1950, 1999, 2000, 2049, 2050, 2051, 2099, 2100, 49, 50, 149, 9990])
+        o["cur_year"] = r.choice([1950, 1999, 2000, 2049, 2050, 2051, 2099, 2100, 50, 51, 149, 9990])
     o["via"] = r.choice(["module", "instance"])
     return o
+
+
+# ------------------------------------------------------------------------------------ shared check pieces
+
+def run_model_parallel(cases, nproc=6):
+    """cases: list of (opts, string, ...).  Shard over several oracle processes."""
+    import threading
+    n = len(cases)
+    if n == 0:
+        return []
+    k = min(nproc, max(1, n // 2000))
+    res = [None] * k
+    errs = []
+
+    def work(j):
+        try:
+            o = C.Oracle(AREA)
+            res[j] = run_model(o, [(c[0], c[1]) for c in cases[j::k]])
+            o.close()
+        except Exception as ex:  # pragma: no cover
+            errs.append(ex)
+
+    ts = [threading.Thread(target=work, args=(j,)) for j in range(k)]
+    for t in ts:
+        t.start()
+    for t in ts:
+        t.join()
+    if errs:
+        raise errs[0]
+    out = [None] * n
+    for j in range(k):
+        out[j::k] = res[j]
+    return out
+
+
+def opts_public(o):
+    d = default_opts()
+    return {k: v for k, v in o.items() if v != d[k]}
+
+
+def tuplify(x):
+    if isinstance(x, list):
+        if x and isinstance(x[0], str):
+            return tuple(tuplify(v) for v in x)
+        return [tuplify(v) for v in x]
+    return x
+
+
+def opts_from_json(d):
+    o = default_opts()
+    o.update(d or {})
+    o["default"] = tuple(o["default"])
+    if isinstance(o["tzinfos"], list):
+        o["tzinfos"] = tuplify(o["tzinfos"])
+    return o
+
+
+def set_tz(name):
+    os.environ["TZ"] = name
+    _time.tzset()
+
+
+FILLER = ["Today", "is", "the", "meeting", "was", "held", "in", "room", "we", "met", "with", "people", "for",
+          "lunch", "report", "signed", "by", "Smith", "deadline", "was", "moved", "to", "see", "you", "there",
+          "version", "released", "it", "happened", "around", "then", "until", "from", "since"]
+
+
+def ampm_word_count(s):
+    import re
+    return sum(1 for w in re.findall(r"[A-Za-z]+", s) if w.lower() in ("a", "am", "p", "pm"))
